@@ -10,3 +10,17 @@ def predicate(name):
         return f
 
     return deco
+
+
+_B32 = set("ABCDEFGHIJKLMNOPQRSTUVWXYZ234567")
+
+
+@predicate("c13_addr_bad_checksum")
+def c13_addr_bad_checksum(case, bucket, detail):
+    """F14a: Addr given 58 base32-alphabet characters that do not decode to key + matching checksum."""
+    if not isinstance(case, dict) or case.get("kind") != "addr":
+        return False
+    if bucket != "emitted-unlexable:addr":
+        return False
+    a = case.get("arg")
+    return isinstance(a, str) and len(a) == 58 and all(c in _B32 for c in a)
